@@ -117,3 +117,15 @@ Theorem C18_systemdb_not_manageable :
   forall g c, In g gates -> dbmgmt g = true -> cx_tgt c = DSystem -> decide g c = Refused.
 Proof. exact systemdb_not_manageable. Qed.
 Print Assumptions C18_systemdb_not_manageable.
+
+(* Streams that serve SEVERAL requests (bidirectional streams of the service descriptors, handlers
+   with a receive loop: StreamExportTx) authorize EVERY request: all their authentication/permission
+   guards sit inside the receive loop, so a request on an already open stream is decided by the
+   caller's context at the time of that request — with the theorems above: refused once the session
+   ended or the user was deactivated / re-permissioned.  Hoisting a guard out of the loop changes the
+   regenerated table and breaks this theorem. *)
+Theorem C18_stream_requests_reauthorized :
+  forall g c_open c_now, In g gates -> multi_request g = true ->
+    per_request g = true /\ decide_next g c_open c_now = decide g c_now.
+Proof. exact stream_requests_reauthorized. Qed.
+Print Assumptions C18_stream_requests_reauthorized.
